@@ -23,6 +23,7 @@ import ast
 import os
 from fractions import Fraction
 
+from pynorm import Refuse, assign_name, bind, func_params, normalize, rename, replace_subtree, same
 from translate import KernelTranslator, Untranslatable, call_name, emit_kernel, find_func, lean_str, str_list
 
 REL = "xrspatial/convolution.py"
@@ -50,7 +51,13 @@ def int_expr(n, env):
         v = int_expr(n.operand, env)
         return [f"(-{x})" for x in v] if isinstance(v, list) else f"(-{v})"
     if isinstance(n, ast.BinOp) and type(n.op) in (ast.Add, ast.Sub, ast.Mult, ast.FloorDiv):
-        a, b = int_expr(n.left, env), int_expr(n.right, env)
+        l, r = n.left, n.right
+        # integer + and * commute: one spelling (`x + 1`, `2 * x`)
+        if isinstance(n.op, ast.Add) and isinstance(l, ast.Constant) and not isinstance(r, ast.Constant):
+            l, r = r, l
+        if isinstance(n.op, ast.Mult) and isinstance(r, ast.Constant) and not isinstance(l, ast.Constant):
+            l, r = r, l
+        a, b = int_expr(l, env), int_expr(r, env)
 
         def one(x, y):
             if isinstance(n.op, ast.FloorDiv):
@@ -63,13 +70,13 @@ def int_expr(n, env):
                 raise Missing("vector length mismatch")
             return [one(x, y) for x, y in zip(la, lb)]
         return one(a, b)
-    if isinstance(n, ast.Call) and call_name(n.func) == "array" and len(n.args) == 1:
+    if isinstance(n, ast.Call) and call_name(n.func) in ("array", "asarray") and len(n.args) == 1 and not n.keywords:
         return int_expr(n.args[0], env)
-    if isinstance(n, ast.Attribute) and n.attr == "shape" and isinstance(n.value, ast.Name):
-        key = n.value.id + ".shape"
+    if isinstance(n, ast.Attribute) and n.attr == "shape":
+        key = "shape:" + ast.dump(n.value)
         if key in env:
             return env[key]
-        raise Missing(f"shape of {n.value.id}")
+        raise Missing(f"shape of {ast.unparse(n.value)}")
     if isinstance(n, ast.Subscript) and isinstance(n.slice, ast.Constant) and isinstance(n.slice.value, int):
         v = int_expr(n.value, env)
         if isinstance(v, list) and 0 <= n.slice.value < len(v):
@@ -139,75 +146,191 @@ def kwarg(call, name):
 
 
 # ------------------------------------------------------------------ distance strings
+CMP = {ast.LtE: "le", ast.Lt: "lt", ast.GtE: "ge", ast.Gt: "gt", ast.Eq: "eq", ast.NotEq: "ne"}
+MIRROR = {"le": "ge", "lt": "gt", "ge": "le", "gt": "lt", "eq": "eq", "ne": "ne"}
+
+
+def raises(st):
+    return isinstance(st, ast.If) and not st.orelse and any(isinstance(b, ast.Raise) for b in st.body)
+
+
+def contains(node, pred):
+    return any(pred(n) for n in ast.walk(node))
+
+
 def distance_facts(mod):
+    """works on the normal form of `_get_distance` (pynorm): single-use names are gone, so the pieces are
+    recognised by what they are, not by what they are called:
+      SPLITS  the list comprehension over re.split(<pattern>, <parameter>)
+      NUMBER  SPLITS[i] wherever it is not the unit;  DISTANCE  the expression compared in the rejection test
+      UNIT    the variable set by  `if len(SPLITS) == g: UNIT = SPLITS[j]  else: UNIT = <default>`"""
     consts = module_consts(mod)
-    f = find_func(mod, "_get_distance")
-    if f is None:
+    f0 = find_func(mod, "_get_distance")
+    if f0 is None:
         raise Missing("_get_distance not found")
+    f = normalize(f0)
+    if len(f.args.args) != 1:
+        raise Missing("_get_distance parameters")
     param = f.args.args[0].arg
     facts = {}
-    # splits = [x for x in re.split(REGEX, distance_str) if x != '']
-    asg = assignments(f)
-    sp = single(asg, "splits")
-    if not (isinstance(sp, ast.ListComp) and len(sp.generators) == 1):
-        raise Missing("splits is not a list comprehension")
+    comps = [n for n in ast.walk(f) if isinstance(n, ast.ListComp)]
+    if not comps or any(not same(c, comps[0]) for c in comps):
+        raise Missing("the list comprehension over re.split")
+    sp = comps[0]
+    if len(sp.generators) != 1:
+        raise Missing("splits is not a simple list comprehension")
     g = sp.generators[0]
     it = g.iter
-    if not (isinstance(it, ast.Call) and ast.unparse(it.func) == "re.split" and len(it.args) == 2
-            and isinstance(it.args[0], ast.Constant) and isinstance(it.args[0].value, str)
-            and isinstance(it.args[1], ast.Name) and it.args[1].id == param and not it.keywords):
+    if not (isinstance(it, ast.Call) and ast.unparse(it.func) == "re.split"):
         raise Missing("re.split(<pattern>, <arg>) not found")
-    facts["regex"] = it.args[0].value
-    elt_ok = isinstance(sp.elt, ast.Name) and isinstance(g.target, ast.Name) and sp.elt.id == g.target.id
+    try:
+        ra = bind(it, ["pattern", "string", "maxsplit", "flags"])
+    except Refuse as ex:
+        raise Missing(str(ex))
+    if set(ra) != {"pattern", "string"} or not (isinstance(ra["string"], ast.Name) and ra["string"].id == param):
+        raise Missing("re.split(<pattern>, <arg>) not found")
+    facts["regex"] = const_value(ra["pattern"], consts)
+    if not isinstance(facts["regex"], str):
+        raise Missing("re.split pattern")
+    elt_ok = isinstance(sp.elt, ast.Name) and isinstance(g.target, ast.Name) and sp.elt.id == g.target.id and not g.is_async
     facts["drop_empty"] = bool(elt_ok and len(g.ifs) == 1 and ast.unparse(g.ifs[0]) == f"{g.target.id} != ''")
-    # if len(splits) not in [..]: raise
-    lens = None
-    reject = None
+
+    def is_splits(n):
+        return same(n, sp)
+
+    def is_len_splits(n):
+        return isinstance(n, ast.Call) and isinstance(n.func, ast.Name) and n.func.id == "len" and len(n.args) == 1 \
+            and not n.keywords and is_splits(n.args[0])
+
+    def piece(n):
+        """SPLITS[<const>] -> index"""
+        if isinstance(n, ast.Subscript) and is_splits(n.value):
+            return const_value(n.slice, consts)
+        return None
+    # any other use of SPLITS than len(SPLITS) / SPLITS[const] is not understood
+    class Uses(ast.NodeVisitor):
+        bad = False
+
+        def generic_visit(self, n):
+            if is_len_splits(n) or (isinstance(n, ast.Subscript) and is_splits(n.value)):
+                return
+            if is_splits(n):
+                Uses.bad = True
+                return
+            super().generic_visit(n)
+    Uses.bad = False
+    Uses().visit(f)
+    if Uses.bad:
+        raise Missing("a use of the pieces other than len(...) / [...]")
+
+    lens = reject = None
     unit_known = False
+    unit_var = unit_guard = unit_index = default_node = None
+    dist_expr = None
     norm = []
-    number_index = unit_index = None
-    unit_guard = None
-    for st in f.body:
-        if isinstance(st, ast.If) and any(isinstance(b, ast.Raise) for b in st.body):
+    ret = None
+    body = list(f.body)
+    for k_, st in enumerate(body):
+        if raises(st):
             t = st.test
-            if isinstance(t, ast.Compare) and len(t.ops) == 1 and isinstance(t.ops[0], ast.NotIn) \
-                    and ast.unparse(t.left) == "len(splits)" and isinstance(t.comparators[0], (ast.List, ast.Tuple)):
+            if isinstance(t, ast.Compare) and len(t.ops) == 1 and isinstance(t.ops[0], ast.NotIn) and is_len_splits(t.left) \
+                    and isinstance(t.comparators[0], (ast.List, ast.Tuple, ast.Set)):
+                if lens is not None:
+                    raise Missing("two piece-count tests")
                 lens = [const_value(e, consts) for e in t.comparators[0].elts]
-            elif isinstance(t, ast.Compare) and len(t.ops) == 1 and isinstance(t.left, ast.Name) \
-                    and t.left.id == "distance" and isinstance(t.comparators[0], ast.Constant):
-                opn = {ast.LtE: "le", ast.Lt: "lt", ast.GtE: "ge", ast.Gt: "gt", ast.Eq: "eq", ast.NotEq: "ne"}.get(type(t.ops[0]))
-                if opn is None:
-                    raise Missing("rejection comparison")
-                reject = (opn, Fraction(repr(t.comparators[0].value)))
+            elif isinstance(t, ast.Compare) and len(t.ops) == 1 and type(t.ops[0]) in CMP \
+                    and (isinstance(t.comparators[0], ast.Constant) != isinstance(t.left, ast.Constant)) \
+                    and contains(t, lambda n: piece(n) is not None):
+                if reject is not None:
+                    raise Missing("two rejection tests")
+                opn = CMP[type(t.ops[0])]
+                e, c = t.left, t.comparators[0]
+                if isinstance(e, ast.Constant):
+                    e, c, opn = c, e, MIRROR[opn]
+                if not isinstance(c.value, (int, float)) or isinstance(c.value, bool):
+                    raise Missing("rejection bound")
+                reject = (opn, Fraction(repr(c.value)))
+                dist_expr = e
             elif isinstance(t, ast.Compare) and len(t.ops) == 1 and isinstance(t.ops[0], ast.NotIn) \
-                    and ast.unparse(t.left) == "unit" and ast.unparse(t.comparators[0]) == "UNITS":
-                unit_known = True
-        if isinstance(st, ast.If) and not any(isinstance(b, ast.Raise) for b in st.body):
-            # if len(splits) == 2: unit = splits[1]
-            if ast.unparse(st.test).startswith("len(splits) == ") and len(st.body) == 1 and not st.orelse:
-                b = st.body[0]
-                if isinstance(b, ast.Assign) and ast.unparse(b.targets[0]) == "unit" \
-                        and isinstance(b.value, ast.Subscript) and ast.unparse(b.value.value) == "splits":
-                    unit_guard = const_value(st.test.comparators[0], consts)
-                    unit_index = const_value(b.value.slice, consts)
-        if isinstance(st, ast.Assign) and ast.unparse(st.targets[0]) == "number" \
-                and isinstance(st.value, ast.Subscript) and ast.unparse(st.value.value) == "splits":
-            number_index = const_value(st.value.slice, consts)
-        if isinstance(st, ast.Assign) and ast.unparse(st.targets[0]) == "unit" and isinstance(st.value, ast.Call) \
-                and isinstance(st.value.func, ast.Attribute) and ast.unparse(st.value.func.value) == "unit":
-            m = st.value.func.attr
-            args = [const_value(a, consts) for a in st.value.args]
-            norm.append(m + "".join(":" + repr(a) for a in args))
-    if lens is None or reject is None or number_index is None or unit_index is None:
-        raise Missing("shape of _get_distance (lens / reject / number / unit)")
-    facts.update(lens=lens, reject=reject, unit_known=unit_known, norm=norm, number_index=number_index,
+                    and isinstance(t.left, ast.Name) and ast.unparse(t.comparators[0]) == "UNITS":
+                unit_known = t.left.id
+            continue
+        if isinstance(st, ast.If) and st.orelse and len(st.body) == 1 and len(st.orelse) == 1 \
+                and assign_name(st.body[0]) and assign_name(st.orelse[0]) \
+                and assign_name(st.body[0])[0] == assign_name(st.orelse[0])[0]:
+            (x, a), (_, d) = assign_name(st.body[0]), assign_name(st.orelse[0])
+            t = st.test
+            if isinstance(t, ast.Compare) and len(t.ops) == 1 and isinstance(t.ops[0], ast.Eq) and is_len_splits(t.left) \
+                    and piece(a) is not None and unit_var is None:
+                unit_var, unit_guard, unit_index, default_node = x, const_value(t.comparators[0], consts), piece(a), d
+                continue
+        if isinstance(st, ast.If) and not st.orelse and len(st.body) == 1 and assign_name(st.body[0]) and unit_var is None:
+            # the un-merged spelling:  UNIT = <default>  (earlier)  ...  if len(SPLITS) == g: UNIT = SPLITS[j]
+            x, a = assign_name(st.body[0])
+            t = st.test
+            earlier = [assign_name(b) for b in body[:k_] if assign_name(b) and assign_name(b)[0] == x]
+            if isinstance(t, ast.Compare) and len(t.ops) == 1 and isinstance(t.ops[0], ast.Eq) and is_len_splits(t.left) \
+                    and piece(a) is not None and len(earlier) == 1:
+                unit_var, unit_guard, unit_index, default_node = x, const_value(t.comparators[0], consts), piece(a), earlier[0][1]
+                continue
+        an = assign_name(st)
+        if an and unit_var is not None and an[0] == unit_var:
+            v = an[1]
+            if isinstance(v, ast.Call) and isinstance(v.func, ast.Attribute) and isinstance(v.func.value, ast.Name) \
+                    and v.func.value.id == unit_var and not v.keywords:
+                args = [const_value(x_, consts) for x_ in v.args]
+                norm.append(v.func.attr + "".join(":" + repr(x_) for x_ in args))
+                continue
+            raise Missing("assignment to the unit: " + ast.unparse(st))
+        if an and unit_var is None and isinstance(an[1], (ast.Name, ast.Constant)):
+            continue                       # the default of the un-merged spelling, picked up above
+        if isinstance(st, ast.Return) and st.value is not None and ret is None:
+            ret = st.value
+            continue
+        raise Missing("statement of _get_distance: " + ast.unparse(st).splitlines()[0])
+    if lens is None or reject is None or unit_var is None or ret is None:
+        raise Missing("shape of _get_distance (lens / reject / unit / return)")
+    if unit_known is not False and unit_known != unit_var:
+        unit_known = False
+    # the number: every piece that is read, other than the unit's
+    idx = set()
+    skip = []
+    for st in body:
+        if isinstance(st, ast.If) and st.body and assign_name(st.body[0]) and assign_name(st.body[0])[0] == unit_var:
+            skip.append(assign_name(st.body[0])[1])
+    for n in ast.walk(f):
+        if piece(n) is not None and not any(n is s_ for s_ in skip):
+            idx.add(piece(n))
+    if len(idx) != 1:
+        raise Missing(f"number piece: indices {sorted(idx)}")
+    number_index = idx.pop()
+
+    def is_number(n):
+        return piece(n) == number_index and not any(n is s_ for s_ in skip)
+    dist_named = replace_subtree(dist_expr, is_number, lambda: ast.Name(id="number", ctx=ast.Load()))
+    facts["distance_src"] = ast.unparse(dist_named)
+    ret_named = replace_subtree(ret, lambda n: same(n, dist_expr), lambda: ast.Name(id="distance", ctx=ast.Load()))
+    ret_named = replace_subtree(ret_named, is_number, lambda: ast.Name(id="number", ctx=ast.Load()))
+    ret_named = rename(ret_named, {unit_var: "unit"})
+    # _to_meters(d=..., unit=...) -> positional
+    tm = find_func(mod, "_to_meters")
+    if tm is None:
+        raise Missing("_to_meters")
+    tmn = normalize(tm)
+    if isinstance(ret_named, ast.Call) and call_name(ret_named.func) == "_to_meters":
+        try:
+            ba = bind(ret_named, func_params(tmn))
+            ret_named = ast.Call(func=ret_named.func, args=[ba[p_] for p_ in func_params(tmn)], keywords=[])
+        except (Refuse, KeyError) as ex:
+            raise Missing("_to_meters call: " + str(ex))
+    facts["meters_src"] = ast.unparse(ret_named)
+    facts.update(lens=lens, reject=reject, unit_known=bool(unit_known), norm=norm, number_index=number_index,
                  unit_index=unit_index, unit_guard=unit_guard)
-    # distance = float(number); _is_numeric = try float(s)
-    facts["distance_src"] = ast.unparse(single(asg, "distance"))
     isn = find_func(mod, "_is_numeric")
     facts["is_numeric_src"] = ast.unparse(isn.body[0]).replace("\n", "; ") if isn else "?"
-    facts["default_unit"] = const_value(single(asg, "unit") if len(asg.get("unit", [])) == 1 else asg["unit"][0], consts)
-    facts["meters_src"] = ast.unparse(single(asg, "meters"))
+    facts["default_unit"] = const_value(default_node, consts)
+    if not isinstance(facts["default_unit"], str):
+        raise Missing("default unit")
     # UNITS
     units_node = consts.get("UNITS")
     if not isinstance(units_node, ast.Dict):
@@ -216,51 +339,94 @@ def distance_facts(mod):
     for k, v in zip(units_node.keys, units_node.values):
         units.append((const_value(k, consts), Fraction(repr(const_value(v, consts)))))
     facts["units"] = units
-    tm = find_func(mod, "_to_meters")
-    if tm is None or len(tm.body) != 1 or not isinstance(tm.body[0], ast.Return):
+    # _to_meters: `return <first parameter> * UNITS[<second parameter>]` (float multiplication commutes exactly)
+    if len(tmn.body) != 1 or not isinstance(tmn.body[0], ast.Return) or len(func_params(tmn)) != 2:
         raise Missing("_to_meters")
-    facts["to_meters_src"] = ast.unparse(tm.body[0].value)
+    e = rename(tmn.body[0].value, dict(zip(func_params(tmn), ["d", "unit"])))
+    if isinstance(e, ast.BinOp) and isinstance(e.op, ast.Mult) and isinstance(e.right, ast.Name) and e.right.id == "d" \
+            and not (isinstance(e.left, ast.Name) and e.left.id == "d"):
+        e = ast.BinOp(left=e.right, op=e.op, right=e.left)
+    facts["to_meters_src"] = ast.unparse(e)
     return facts
 
 
 # ------------------------------------------------------------------ _ellipse_kernel
+def is_none_axis(n):
+    return (isinstance(n, ast.Constant) and n.value is None) or \
+        (isinstance(n, ast.Attribute) and n.attr == "newaxis" and isinstance(n.value, ast.Name) and n.value.id in ("np", "numpy"))
+
+
 def linspace_of(node):
-    """np.linspace(a, b, n)  or  np.linspace(a, b, n)[:, None]  -> (a, b, n, axis)"""
+    """np.linspace(a, b, n)  or  np.linspace(a, b, n)[:, None]  -> (a, b, n, axis); None when node is neither"""
     axis = 1
     if isinstance(node, ast.Subscript):
         sl = node.slice
         if isinstance(sl, ast.Tuple) and len(sl.elts) == 2 and isinstance(sl.elts[0], ast.Slice) \
                 and sl.elts[0].lower is None and sl.elts[0].upper is None and sl.elts[0].step is None \
-                and isinstance(sl.elts[1], ast.Constant) and sl.elts[1].value is None:
+                and is_none_axis(sl.elts[1]):
             axis = 0
             node = node.value
         else:
-            raise Missing(f"linspace subscript {ast.unparse(node)}")
-    if isinstance(node, ast.Call) and call_name(node.func) == "linspace" and len(node.args) == 3 and not node.keywords:
-        return node.args[0], node.args[1], node.args[2], axis
-    raise Missing(f"not a linspace: {ast.unparse(node)}")
+            return None
+    if isinstance(node, ast.Call) and call_name(node.func) == "linspace" and isinstance(node.func, ast.Attribute) \
+            and isinstance(node.func.value, ast.Name) and node.func.value.id in ("np", "numpy"):
+        try:
+            a = bind(node, ["start", "stop", "num"])
+        except Refuse:
+            return None
+        if set(a) == {"start", "stop", "num"}:
+            return a["start"], a["stop"], a["num"], axis
+    return None
+
+
+def is_float_dtype(n):
+    return ast.unparse(n) in ("float", "np.float64", "numpy.float64", "'float64'", "'float'", "'f8'")
 
 
 def ellipse_facts(mod):
-    f = find_func(mod, "_ellipse_kernel")
-    if f is None:
+    f0 = find_func(mod, "_ellipse_kernel")
+    if f0 is None:
         raise Missing("_ellipse_kernel not found")
+    f = normalize(f0)
     params = [a.arg for a in f.args.args]
     if len(params) != 2:
         raise Missing("_ellipse_kernel parameters")
-    asg = assignments(f)
     env = {p: p for p in params}
     out = {"params": params}
-    for v in ("x", "y"):
-        a, b, n, axis = linspace_of(single(asg, v))
-        out[v] = dict(start=int_expr(a, env), stop=int_expr(b, env), num=int_expr(n, env), axis=axis)
-    ret = [s for s in f.body if isinstance(s, ast.Return)]
-    if len(ret) != 1 or not (isinstance(ret[0].value, ast.Call) and call_name(ret[0].value.func) == "astype"
-                             and isinstance(ret[0].value.func.value, ast.Name)
-                             and len(ret[0].value.args) == 1 and ast.unparse(ret[0].value.args[0]) == "float"):
+    if len(f.body) != 1 or not isinstance(f.body[0], ast.Return):
+        raise Missing("_ellipse_kernel is not `return <mask>.astype(float)` after inlining its temporaries: "
+                      + "; ".join(ast.unparse(s).splitlines()[0] for s in f.body[:-1]))
+    rv = f.body[0].value
+    if not (isinstance(rv, ast.Call) and call_name(rv.func) == "astype" and isinstance(rv.func, ast.Attribute)):
         raise Missing("return <mask>.astype(float)")
-    mask_name = ret[0].value.func.value.id
-    pred = single(asg, mask_name)
+    try:
+        aa = bind(rv, ["dtype"])
+    except Refuse as ex:
+        raise Missing(str(ex))
+    if set(aa) != {"dtype"} or not is_float_dtype(aa["dtype"]):
+        raise Missing("return <mask>.astype(float)")
+    pred = rv.func.value
+    # the sample vectors: maximal linspace sub-expressions, told apart by the axis they run along
+    found = {0: [], 1: []}
+
+    class Find(ast.NodeVisitor):
+        def visit(self, n):
+            ls = linspace_of(n)
+            if ls is not None:
+                found[ls[3]].append((n, ls))
+                return
+            self.generic_visit(n)
+    Find().visit(pred)
+    for axis, v in ((1, "x"), (0, "y")):
+        if not found[axis] or any(not same(n, found[axis][0][0]) for n, _ in found[axis]):
+            raise Missing(f"the {v} samples (np.linspace along axis {axis})")
+        a, b, n, _ = found[axis][0][1]
+        out[v] = dict(start=int_expr(a, env), stop=int_expr(b, env), num=int_expr(n, env), axis=axis)
+    for v in ("x", "y"):
+        if v in params:
+            raise Missing("parameter named like a sample vector")
+    pred = replace_subtree(pred, lambda n: same(n, found[1][0][0]), lambda: ast.Name(id="x", ctx=ast.Load()))
+    pred = replace_subtree(pred, lambda n: same(n, found[0][0][0]), lambda: ast.Name(id="y", ctx=ast.Load()))
     tr = KernelTranslator(mod, f)
     tr.args = ["x", "y"] + params
     tr.yvar = tr.xvar = None
@@ -277,87 +443,94 @@ def ellipse_facts(mod):
 
 # ------------------------------------------------------------------ circle_kernel
 def circle_facts(mod, ellipse_params):
-    f = find_func(mod, "circle_kernel")
-    if f is None:
+    f0 = find_func(mod, "circle_kernel")
+    if f0 is None:
         raise Missing("circle_kernel not found")
+    f = normalize(f0)
     params = [a.arg for a in f.args.args]
-    asg = assignments(f)
-    call = None
-    for n in ast.walk(f):
-        if isinstance(n, ast.Call) and call_name(n.func) == "_ellipse_kernel":
-            call = n
-    if call is None or call.keywords or len(call.args) != len(ellipse_params):
+    if len(f.body) != 1 or not isinstance(f.body[0], ast.Return):
+        raise Missing("circle_kernel is not `return _ellipse_kernel(...)` after inlining its temporaries")
+    call = f.body[0].value
+    if not (isinstance(call, ast.Call) and isinstance(call.func, ast.Name) and call.func.id == "_ellipse_kernel"):
         raise Missing("_ellipse_kernel(...) call in circle_kernel")
-    r_src = ast.unparse(single(asg, "r"))
+    try:
+        ca = bind(call, ellipse_params)
+    except Refuse as ex:
+        raise Missing(str(ex))
+    if set(ca) != set(ellipse_params):
+        raise Missing("_ellipse_kernel(...) arguments")
+    rs = [n for n in ast.walk(call) if isinstance(n, ast.Call) and isinstance(n.func, ast.Name) and n.func.id == "_get_distance"]
+    if not rs or any(not same(r_, rs[0]) for r_ in rs):
+        raise Missing("the radius in metres (_get_distance(...))")
+    if "r" in params[:2]:
+        raise Missing("parameter named r")
     env = {"r": "r"}
     for p in params[:2]:
         env[p] = p
-    out = {"params": params, "r_src": r_src}
-    for pname, arg in zip(ellipse_params, call.args):
-        e = arg
-        if isinstance(e, ast.Name) and e.id in asg:
-            e = single(asg, e.id)
+    out = {"params": params, "r_src": ast.unparse(rs[0])}
+    for pname in ellipse_params:
+        e = replace_subtree(ca[pname], lambda n: same(n, rs[0]), lambda: ast.Name(id="r", ctx=ast.Load()))
         out[pname] = rat_to_int_expr(e, env)
     return out
 
 
 # ------------------------------------------------------------------ annulus_kernel
 def annulus_facts(mod):
-    f = find_func(mod, "annulus_kernel")
-    if f is None:
+    f0 = find_func(mod, "annulus_kernel")
+    ck = find_func(mod, "circle_kernel")
+    if f0 is None or ck is None:
         raise Missing("annulus_kernel not found")
-    asg = assignments(f)
+    f = normalize(f0)
     out = {}
-    circles = {}
-    for name, vals in asg.items():
-        for v in vals:
-            if isinstance(v, ast.Call) and call_name(v.func) == "circle_kernel" and not v.keywords:
-                circles[name] = [ast.unparse(a) for a in v.args]
-    pad = None
-    pad_name = None
-    for name, vals in asg.items():
-        for v in vals:
-            if isinstance(v, ast.Call) and ast.unparse(v.func) in ("np.pad", "numpy.pad"):
-                pad, pad_name = v, name
-    if pad is None or len(pad.args) != 1 or not isinstance(pad.args[0], ast.Name):
-        raise Missing("np.pad(<array>, pad_width=...) not found")
-    target = pad.args[0].id
-    ret = [s for s in f.body if isinstance(s, ast.Return)]
-    if len(ret) != 1 or not isinstance(ret[0].value, ast.Name):
-        raise Missing("annulus return")
-    fin = single(asg, ret[0].value.id)
-    if not (isinstance(fin, ast.BinOp) and isinstance(fin.left, ast.Name) and isinstance(fin.right, ast.Name)
-            and type(fin.op) in (ast.Add, ast.Sub, ast.Mult)):
+    if len(f.body) != 1 or not isinstance(f.body[0], ast.Return):
+        raise Missing("annulus_kernel is not a single expression after inlining its temporaries")
+    fin = f.body[0].value
+    if not (isinstance(fin, ast.BinOp) and type(fin.op) in (ast.Add, ast.Sub, ast.Mult)):
         raise Missing("annulus combination")
     op = {ast.Add: "add", ast.Sub: "sub", ast.Mult: "mul"}[type(fin.op)]
-    names = (fin.left.id, fin.right.id)
-    if pad_name not in names:
-        raise Missing("combination does not use the padded kernel")
-    other = names[0] if names[1] == pad_name else names[1]
-    if other not in circles or target not in circles or other == target:
-        raise Missing("combination operands are not the two circle kernels")
-    out["outer_args"] = circles[other]
-    out["inner_args"] = circles[target]
-    out["outer_first"] = names[0] == other
+
+    def is_circle(n):
+        return isinstance(n, ast.Call) and isinstance(n.func, ast.Name) and n.func.id == "circle_kernel"
+
+    def is_pad(n):
+        return isinstance(n, ast.Call) and ast.unparse(n.func) in ("np.pad", "numpy.pad")
+    if is_pad(fin.right) and is_circle(fin.left):
+        pad, outer, outer_first = fin.right, fin.left, True
+    elif is_pad(fin.left) and is_circle(fin.right):
+        pad, outer, outer_first = fin.left, fin.right, False
+    else:
+        raise Missing("combination operands are not a circle kernel and a padded one")
+    try:
+        pa = bind(pad, ["array", "pad_width", "mode", "constant_values"] if len(pad.args) <= 3 else ["array", "pad_width", "mode"])
+        cparams = func_params(ck)
+        if not is_circle(pa.get("array")):
+            raise Missing("np.pad(<inner circle kernel>, ...)")
+        inner = pa["array"]
+        oa, ia = bind(outer, cparams), bind(inner, cparams)
+    except Refuse as ex:
+        raise Missing(str(ex))
+    if set(oa) != set(cparams) or set(ia) != set(cparams) or same(outer, inner):
+        raise Missing("arguments of the two circle kernels")
+    out["outer_args"] = [ast.unparse(oa[p]) for p in cparams]
+    out["inner_args"] = [ast.unparse(ia[p]) for p in cparams]
+    out["outer_first"] = outer_first
     out["op"] = op
-    env = {other + ".shape": ["orows", "ocols"], target + ".shape": ["irows", "icols"]}
-    # local vectors such as pad_vals
-    for name, vals in asg.items():
-        if name in circles or name == pad_name or name == ret[0].value.id:
-            continue
-        if len(vals) == 1:
-            try:
-                env[name] = int_expr(vals[0], env)
-            except Missing:
-                pass
-    pw = kwarg(pad, "pad_width")
-    if not (isinstance(pw, ast.Tuple) and len(pw.elts) == 2 and all(isinstance(e, ast.Tuple) and len(e.elts) == 2 for e in pw.elts)):
+    env = {"shape:" + ast.dump(outer): ["orows", "ocols"], "shape:" + ast.dump(inner): ["irows", "icols"]}
+    pw = pa.get("pad_width")
+    if not (isinstance(pw, (ast.Tuple, ast.List)) and len(pw.elts) == 2
+            and all(isinstance(e, (ast.Tuple, ast.List)) and len(e.elts) == 2 for e in pw.elts)):
         raise Missing("pad_width is not ((a, b), (c, d))")
     out["pad"] = [[int_expr(e, env) for e in row.elts] for row in pw.elts]
-    mode = kwarg(pad, "mode")
-    cv = kwarg(pad, "constant_values")
-    out["mode"] = mode.value if isinstance(mode, ast.Constant) else "?"
-    out["constant"] = cv.value if isinstance(cv, ast.Constant) and isinstance(cv.value, int) else None
+    if any(isinstance(x, list) for row in out["pad"] for x in row):
+        raise Missing("pad width is a vector")
+    mode = pa.get("mode")
+    cv = pa.get("constant_values")
+    out["mode"] = "constant" if mode is None else (mode.value if isinstance(mode, ast.Constant) else "?")     # numpy's default
+    if cv is None:
+        out["constant"] = 0                                                                                    # numpy's default
+    else:
+        out["constant"] = cv.value if isinstance(cv, ast.Constant) and isinstance(cv.value, int) \
+            and not isinstance(cv.value, bool) else None
     if out["constant"] is None:
         raise Missing("constant_values")
     return out
@@ -365,15 +538,16 @@ def annulus_facts(mod):
 
 # ------------------------------------------------------------------ calc_cellsize
 def cellsize_facts(mod):
-    f = find_func(mod, "calc_cellsize")
-    if f is None:
+    f0 = find_func(mod, "calc_cellsize")
+    if f0 is None:
         raise Missing("calc_cellsize not found")
+    f = normalize(f0)
     ret = [s for s in f.body if isinstance(s, ast.Return)]
     if len(ret) != 1 or not (isinstance(ret[0].value, ast.Tuple) and len(ret[0].value.elts) == 2):
         raise Missing("calc_cellsize return")
     absf, names = [], []
     for e in ret[0].value.elts:
-        if isinstance(e, ast.Call) and call_name(e.func) in ("abs", "absolute", "fabs") and len(e.args) == 1:
+        if isinstance(e, ast.Call) and call_name(e.func) in ("abs", "absolute", "fabs") and len(e.args) == 1 and not e.keywords:
             absf.append(True)
             e = e.args[0]
         else:
